@@ -659,6 +659,13 @@ func (d *Pegnetd) SnapshotPayouts(tx *sql.Tx, fLog *log.Entry, rates map[fat2.PT
 
 			// Convert from pXXX -> pUSD
 			c, err := conversions.Convert(height, int64(bal.Balances[i]), rates[i], rates[i], rates[fat2.PTickerUSD], rates[fat2.PTickerUSD])
+			if err == conversions.ErrOverflow {
+				// With forged prices (a staking record only has to name a top
+				// holder) a holding can be worth more than an int64 of pUSD.
+				// Returning the error failed the snapshot block on every
+				// attempt; a holding without a computable value does not count.
+				continue
+			}
 			if err != nil {
 				return err
 			}
@@ -681,7 +688,8 @@ func (d *Pegnetd) SnapshotPayouts(tx *sql.Tx, fLog *log.Entry, rates map[fat2.PT
 	var list []StakedAmount
 	for add, amt := range staked {
 		if !amt.IsUint64() {
-			return fmt.Errorf("%s has balance that is not uint64: %s", add, amt)
+			// same reasoning as for a single holding: not a reason to stop the chain
+			continue
 		}
 
 		uAmt := amt.Uint64()
